@@ -74,7 +74,11 @@ def gen(rng, driver, i):
         sc.gis.append(dict(src=src, ents=ents, text=text if has_file else b'', use=use, name=root_name))
     sc.opts = ['r'] + (['gitignore'] if use else []) + (['L'] if sc.deref else [])
     sc.paths = [treegen.spell_path(rng, b'/W', b'/W/' + n, rng.choice(['plain', 'plain', 'dot', 'abs', 'updown', 'slash'])) for n in root_names] + [b'DEST']
+    if rng.random() < 0.15:
+        # the sources are given as patterns that xcp expands itself (--glob): the filter applies to what they expand to
+        sc.opts.append('glob'); sc.paths = [n + b'*' for n in root_names] + [b'DEST']
     sc.gi = sc.gis[0]
+    sc.extra = rng.choice([[], [], [], ['--no-progress'], ['--no-progress'], ['--fsync'], ['--no-perms'], ['--no-timestamps'], ['--reflink=never'], ['--no-progress', '--fsync'], ['-v']])      # options that must not change what is selected
     return sc
 
 
@@ -117,7 +121,13 @@ def run(ctx):
         c2.f(b'/W/S/sib%d' % j); ents2.append((b'/W/S/sib%d' % j, False))
     c2.f(b'/W/S/.gitignore', text=b'/current\n'); ents2.append((b'/W/S/.gitignore', False)); c2.d(b'/W/DEST'); c2.opts = ['r', 'gitignore']; c2.paths = [b'S', b'DEST']
     c2.gi = dict(name=b'S', src=b'/W/S', text=b'/current\n', use=True, ents=ents2); c2.gis = [c2.gi]
-    scs = [c0, c1, c2] + [gen(rng, ['parfile', 'parblock'][i % 2], i) for i in range(n)]
+    # corpus: --glob together with --gitignore
+    c3 = treerun.Scn(); c3.d(b'/W').d(b'/W/proj_a').d(b'/W/proj_a/build').f(b'/W/proj_a/build/out.bin').f(b'/W/proj_a/top.o').f(b'/W/proj_a/main.c').d(b'/W/proj_a/obj').f(b'/W/proj_a/obj/x.o')
+    c3.f(b'/W/proj_a/.gitignore', text=b'*.o\n/build/\n'); c3.d(b'/W/DEST'); c3.opts = ['r', 'gitignore', 'glob']; c3.paths = [b'proj_*', b'DEST']
+    c3.gi = dict(name=b'proj_a', src=b'/W/proj_a', text=b'*.o\n/build/\n', use=True,
+                 ents=[(b'/W/proj_a/build', True), (b'/W/proj_a/build/out.bin', False), (b'/W/proj_a/top.o', False), (b'/W/proj_a/main.c', False), (b'/W/proj_a/obj', True), (b'/W/proj_a/obj/x.o', False), (b'/W/proj_a/.gitignore', False)])
+    c3.gis = [c3.gi]
+    scs = [c0, c1, c2, c3] + [gen(rng, ['parfile', 'parblock'][i % 2], i) for i in range(n)]
     runs = []
     with core.Scratch('c17') as base:
         for i, sc in enumerate(scs):
